@@ -61,7 +61,8 @@ func (l *JSON) Unmarshal(b []byte) error {
 	return nil
 }
 
-// Config must return a threadsafe copy of the underlying config.
-func (l JSON) Config() chan config.ServerConfig {
+// Config must return a threadsafe copy of the underlying config.  The receiver is a pointer: a value
+// receiver copies the whole loader, including the ServerConfig that Unmarshal assigns concurrently.
+func (l *JSON) Config() chan config.ServerConfig {
 	return l.config
 }
